@@ -487,12 +487,40 @@ class Interp:
         if c.get("local") and not c.get("trait"):
             return self.F.bodies.get(c["did"])
         if c.get("local") and c.get("trait") and not inst:
-            # call of a local trait method that did not resolve to an impl (generic Self / T)
+            # call of a local trait method that did not resolve to an impl (generic Self / T): a provided method has a body
+            b = self.F.bodies.get(c["did"])
+            if b is not None and getattr(self, "scalar_mode", False):
+                return b
             return None
         return None
 
+    def scalar_leaf(self, c, args):
+        """scalar (real-function) mode: operations of the number interface applied to abstract scalars are leaf operations"""
+        if not getattr(self, "scalar_mode", False):
+            return False
+        vals = [unref(a) for a in args]
+        if not vals:
+            return c.get("name") in ("one", "zero")
+        if not all(isinstance(v, (Sc, BoolV)) for v in vals):
+            return False
+        tr = c.get("trait") or ""
+        inst = c.get("inst") or {}
+        if tr.startswith("std::ops::") or tr.startswith("num_traits::") or tr.endswith("DualNum") or tr.startswith("std::cmp::"):
+            return True
+        if inst.get("impl_self") is not None and self.F.adt_name(inst["impl_self"]) in self.F.adts:
+            return True
+        if c.get("impl_self") is not None and self.F.adt_name(c["impl_self"]) in self.F.adts and c.get("impl_trait"):
+            return True
+        return False
+
     def call_callee(self, c, args, e=None, recv_first=True):
         """call by resolved callee description with evaluated args"""
+        if self.scalar_leaf(c, args):
+            if not args:
+                return self.sc(1 if c.get("name") == "one" else 0)
+            for h in self.hooks:
+                pass
+            return self.leaf_call(c.get("name"), c.get("path", ""), (c.get("inst") or {}).get("path", ""), c, args, e)
         body = self.callee_body(c)
         if body is not None:
             return self.call_body(body, args, e)
@@ -1155,7 +1183,7 @@ class Interp:
         a = self.ev(e["a"], env)
         b = self.ev(e["b"], env)
         c = e.get("callee")
-        if c is not None:
+        if c is not None and not self.scalar_leaf(c, [a, b]):
             body = self.callee_body(c)
             if body is not None:
                 return self.call_body(body, [a, b], e)
@@ -1214,7 +1242,7 @@ class Interp:
             return v
         a = self.ev(e["a"], env)
         c = e.get("callee")
-        if c is not None:
+        if c is not None and not self.scalar_leaf(c, [a]):
             body = self.callee_body(c)
             if body is not None:
                 return self.call_body(body, [a], e)
